@@ -217,6 +217,10 @@ def op_to_wire(op):
         return ["$eq", "$" + op[1], "$" + op[2], num_to_wire(op[3]), num_to_wire(op[4])]
     if k == "drop":
         return ["$drop", "$" + op[1]]
+    if k in ("good", "iszero"):
+        return ["$" + k, "$" + op[1]]
+    if k == "samebase":
+        return ["$samebase", "$" + op[1], "$" + op[2]]
     raise ValueError(op)
 
 
